@@ -77,9 +77,34 @@ NEEDED = {
  "C19d-shared-map-visited-set": "one nested host map reachable under several keys",
  "C19d-float-hashkey-bits": "NaN keys with different bit patterns, the two zeros",
  "C20d-cli-strips-bom": "odd first characters (BOM, NBSP, NUL, ...) in CLI scripts",
+ # round 5
+ "C19e-float-hashkey-memo-copied": "key variables with a history (C19); part TestC16Stepped",
+ "C01e-float-key-after-step": "belongs to C16 (part TestC16Stepped: keys with a history)",
+ "C17e-trim-ascii-fast-path": "white space that is not ASCII in the shared text generator",
+ "C17e-sorted-array-keeps-cached-text": "the engine's own Inspect() compared; sort inputs with a history",
+ "C04e-fields-kept-after-runaway-recursion": "failing runs between the records",
+ "C09e-poll-only-on-empty-stack": "statements whose value nobody uses before and inside the spinning part",
+ "C09e-prepare-memo-keeps-old-context": "Prepare histories (validate first, other context first, expired first)",
+ "C11e-lazy-index-in-shared-array": "host objects shared by all private evaluators through SetVariable",
+ "C05e-nan-condition-fast-path": "NaN and the infinities as truth values",
+ "C05e-fields-kept-for-nil-object": "null by absence after every history, with and without an object",
+ "C05e-placeholders-dropped-second-round": "positions in which a ternary feeds a condition or comparison",
+ "C14e-bare-cr-ends-comment": "generated comment texts (CR, quotes, code)",
+ "C16e-foreach-cursor-copies-offset": "containers used before: walked by a host function through Iterable",
+ "C16e-reverse-flips-sorted-input": "containers used before: handed to built-ins",
+ "C01e-string-index-invalid-utf8": "belongs to C16 (access 'agree' on host strings that are not valid UTF-8)",
+ "C01e-fields-kept-for-same-object": "history before the judged run (same address, other contents)",
+ "C18e-constant-index-stale-after-failed-prepare": "evaluators re-targeted after a rejected script",
+ "C18e-prepare-again-reuses-compacted-code": "evaluators prepared a second time",
+ "C02e-fields-kept-for-same-object": "sequences of runs on one evaluator, records changed in place",
+ "C02e-foreach-after-join": "containers handed to built-ins between loops",
+ "C06e-calls-counter-leaks-on-arity-error": "belongs to C07 (an arity error, then an early return, then a third run)",
+ "C08e-panic-nil": "panic(null) under GODEBUG=panicnil=1 (odd shards)",
+ "C08e-convert-mark-leaks-on-panic": "part TestC08Repair (the failing object repaired in place)",
+ "C12e-ternary-flag-sticks-after-function": "surroundings of the meaning scripts",
 }
 rows = open(os.path.join(ROOT, "seeded", "MATRIX.md")).read().strip().splitlines()[2:]
-lines = ["| seeded change (suffix b = round 2, c = round 3, d = round 4) | what it does | caught by (quick tier, seed 1) | generator/oracle work it needed |", "|---|---|---|---|"]
+lines = ["| seeded change (suffix b = round 2, c = round 3, d = round 4, e = round 5) | what it does | caught by (quick tier, seed 1) | generator/oracle work it needed |", "|---|---|---|---|"]
 for r in rows:
     sid, prop, res = [c.strip() for c in r.strip("|").split("|")]
     title = ""
